@@ -3,7 +3,7 @@ import random
 
 from .. import scenario, tlc
 
-TEMPLATES = ['r2', 'se2', 'se3', 'se2c', 'mixed', 'se2far', 'se2fix', 'se3fix', 'r3', 'se3big', 'se2weighted', 'se2plain', 'se3reg', 'se2desc', 'se3desc']
+TEMPLATES = ['r2', 'se2', 'se3', 'se2c', 'mixed', 'se2far', 'se2fix', 'se3fix', 'r3', 'se3big', 'se2weighted', 'se2plain', 'se3reg', 'se2desc', 'se3desc', 'se2allfix']
 
 
 def model_check(run, max_iter, max_start):
@@ -54,6 +54,7 @@ def check(run):
     behaviours += [('se2', [opt(6, '1e-4', True), opt(3, '0')]), ('se3', [opt(4, '0', True), opt(6, 'stop:2')]), ('se2far', [opt(6, '0'), opt(4, '1e-1', True)]),
                    ('r2', [opt(3, '0'), opt(4, '1e-12')]), ('se2', [opt(1, '0', False, False)]),
                    ('r2', [opt(4, '0', False, False), opt(3, '1e-4', True, False)]), ('r3', [opt(5, '1e-4', False, False)]), ('r2iso', [opt(3, '1e-2', False, False)]),
+                   ('se2allfix', [opt(3, '1e-4', True), opt(4, '0'), opt(2, '1e-1', False, False)]),        # nothing is free: the documented rule applies all the same
                    ('se2weighted', [opt(4, '1e-4', True), opt(3, '0')]), ('r2lonely', [opt(4, '1e-4'), opt(3, '0', True)]), ('se3lonely', [opt(3, '1e-2', True), opt(2, '0')])]
     events = []
     sessions = scenario.play(behaviours, run.seed, events, twin_every=1, split_fn=split_fn)
